@@ -78,6 +78,7 @@ func Gen(prop, tier string, seed uint64) *kernel.Plan {
 		cfg.Oracles["retry"] = true
 	case "C11":
 		cfg.Oracles["snap"] = true
+		cfg.HoldPub = g.Chance(1, 2)
 	case "C12":
 		cfg.Oracles["serial"] = true
 	case "C13":
